@@ -12,7 +12,7 @@ LEVEL = "translation_validation"
 def run(ctx):
     thorough = ctx.tier == "thorough"
     total = 0
-    for fam, n in (("opt", 4000 if thorough else 1200), ("single", 3000 if thorough else 600), ("join", 3000 if thorough else 600), ("group", 2000 if thorough else 400)):
+    for fam, n in (("opt", 15000 if thorough else 1200), ("single", 10000 if thorough else 600), ("join", 10000 if thorough else 600), ("group", 8000 if thorough else 400)):
         cases, res = rel.run_family(ctx, fam, n, "C04", "optimizer")
         rel.judge(ctx, cases, res, "C04", "optimizer", c04=True)
         total += len(cases)
